@@ -1,6 +1,8 @@
 import Cose.Key.TextForms
 import Cose.Go.Roundtrip
 import Cose.Props.C17
+import Cose.Gen.Tables
+import Cose.Gen.Footprints
 /-!
 # C17 / C15 / C09 — the text and JSON forms of a key are its CBOR form, octet for octet
 
@@ -76,6 +78,45 @@ theorem not_hex_refused (t : Bytes) (h : unmarshalText t = none) : cmapUnmarshal
 
 theorem json_malformed_refused (d : Bytes) (h : unmarshalJSON d = none) : cmapUnmarshalJSON d = .err := by
   simp only [cmapUnmarshalJSON, h]
+
+/-! ## Regenerated tie: the shape of the twelve text / JSON functions in the current source
+
+`Gen.Tables.conds` lists every `if` / `switch` / `case` condition of every function, in source order, and
+`Gen.Footprints.footprints` how each method uses its receiver; both are rewritten from `/repo` on every run.  The model
+above mirrors functions with exactly these branches (nil receiver, error of the inner step; `null`, the two quotes) —
+a branch added to or removed from any of them makes this obligation fail to build, and the correspondence ops
+`map.untext` / `map.unjson` / `dec.bytestrjson` / `dec.bytestrtext` then look for an input. -/
+
+def condsOf (f : String) : Option (List String) := (Cose.Gen.Tables.conds.find? (fun r => r.1 == f)).map (·.2)
+
+def recvUse (f : String) : Option (List (String × String)) :=
+  (Cose.Gen.Footprints.footprints.find? (fun r => r.1 == f)).map (·.2.2)
+
+theorem text_functions_conditions :
+    condsOf "key.CoseMap.MarshalText" = some ["if err != nil"] ∧
+    condsOf "key.CoseMap.MarshalJSON" = some ["if err != nil"] ∧
+    condsOf "key.CoseMap.UnmarshalText" = some ["if m == nil", "if err != nil"] ∧
+    condsOf "key.CoseMap.UnmarshalJSON" = some ["if m == nil", "if err != nil"] ∧
+    condsOf "key.Key.MarshalText" = some [] ∧ condsOf "key.Key.MarshalJSON" = some [] ∧
+    condsOf "key.Key.UnmarshalText" = some [] ∧ condsOf "key.Key.UnmarshalJSON" = some [] ∧
+    condsOf "key.ByteStr.MarshalText" = some [] ∧ condsOf "key.ByteStr.MarshalJSON" = some [] ∧
+    condsOf "key.ByteStr.UnmarshalText" = some ["if bstr == nil", "if err == nil"] ∧
+    condsOf "key.ByteStr.UnmarshalJSON" = some ["if bstr == nil", "if s == \"null\"",
+      "if len(data) < 2 || data[0] != '\"' || data[len(data)-1] != '\"'", "if err == nil"] := by
+  decide +kernel
+
+/-- the label-map methods hand their receiver to their own CBOR method and to nothing else; `Key` forwards to `CoseMap` -/
+theorem text_functions_receiver_use :
+    recvUse "key.CoseMap.MarshalText" = some [("recv", "self:MarshalCBOR")] ∧
+    recvUse "key.CoseMap.MarshalJSON" = some [("recv", "self:MarshalCBOR")] ∧
+    recvUse "key.CoseMap.UnmarshalText" = some [("recv", "self:UnmarshalCBOR")] ∧
+    recvUse "key.CoseMap.UnmarshalJSON" = some [("recv", "self:UnmarshalCBOR")] ∧
+    recvUse "key.Key.MarshalText" = some [("recv", "arg:key.CoseMap#0")] ∧
+    recvUse "key.Key.MarshalJSON" = some [("recv", "arg:key.CoseMap#0")] ∧
+    recvUse "key.Key.UnmarshalText" = some [("recv", "arg:conv:(*CoseMap)#0")] ∧
+    recvUse "key.Key.UnmarshalJSON" = some [("recv", "arg:conv:(*CoseMap)#0")] := by
+  decide +kernel
+
 
 -- non-vacuity (evaluated, a test): a symmetric key `{1: 4, -1: h'0102'}` has the text form "a2010420420102", which decodes
 #guard cmapMarshalText [(.int 1, .int .int 4), (.int (-1), .bytes [1, 2])] ==
